@@ -1,1 +1,222 @@
-/- C20 — property theorems (to be written) -/
+/-
+  C20 — encoding a tensor in a compression format (U / C / B per rank) loses nothing.
+  Property theorems only; helper lemmas live in FtProofs/Lemmas/Codec.lean.
+-/
+import FtProofs.Lemmas.Codec
+set_option linter.unusedSectionVars false
+set_option linter.unusedSimpArgs false
+set_option linter.unusedVariables false
+namespace Ft
+namespace Codec
+
+/-! ### the per-rank arrays decode, by layout alone, to the content -/
+
+/-- For every descriptor, every tensor inside its extents, with or without an imposed shape:
+    the arrays `Codec.encode` produces decode — read with the extent each rank was actually
+    laid out with — to exactly the tensor's content, and nothing is left over. -/
+theorem decode_encode_eff (d : Nat) (fs : List Fmt) (tsh : List Nat) (ish : Option (List Nat))
+    (t : List (Int × Tree Int Int d))
+    (hfs : fs.length = d + 1) (hwf : wfB (κ := Int) (ν := Int) (d + 1) t = true)
+    (hin : inEff (d + 1) fs tsh ish t = true) :
+    decodesTo d fs (effShape fs tsh ish) (encode d fs tsh ish t).root (encode d fs tsh ish t).cs
+      (encode d fs tsh ish t).ps (content (κ := Int) (ν := Int) (0 : Int) (d + 1) t) = true := by
+  obtain ⟨r, hr⟩ : ∃ r, r = encF d fs tsh ish 0 (List.replicate (d + 1) (0, 0)) t := ⟨_, rfl⟩
+  have hlen := encF_len d fs tsh ish 0 (List.replicate (d + 1) (0, 0)) t
+  rw [← hr] at hlen
+  have hE : encode d fs tsh ish t =
+      ⟨if (fs.headD .U).explicit then [(r.occ : Int)] else [], r.cs, r.ps, r.fibs⟩ := by rw [hr]; rfl
+  have hz1 : zipApp r.cs (List.replicate (d + 1) []) = r.cs := zipApp_replicate_nil_right _ _ hlen.1
+  have hz2 : zipApp r.ps (List.replicate (d + 1) []) = r.ps := zipApp_replicate_nil_right _ _ hlen.2
+  have key := decF_encF d fs tsh ish 0 (List.replicate (d + 1) (0, 0)) t
+    ((((if (fs.headD .U).explicit then [(r.occ : Int)] else []) : List Int).headD 0).toNat)
+    (List.replicate (d + 1) []) (List.replicate (d + 1) []) hfs hwf hin (by simp) (by simp)
+    (by intro h; rw [h, ← hr]; simp [Fmt.explicit])
+  rw [← hr, hz1, hz2] at key
+  rw [hE]
+  simp only [decodesTo, key, hlen.1, hlen.2, Bool.and_eq_true, decide_eq_true_eq, List.all_eq_true]
+  refine ⟨⟨⟨⟨⟨?_, trivial⟩, trivial⟩, trivial⟩, ?_⟩, ?_⟩
+  · cases (fs.headD .U).explicit <;> simp
+  · intro x hx; rw [List.eq_of_mem_replicate hx]; rfl
+  · intro x hx; rw [List.eq_of_mem_replicate hx]; rfl
+
+
+/-- the same statement for the decoder's natural input, the *declared* shape (the imposed one
+    if there is one, else the tensor's) — PARTIAL: `hlay` excludes the class in which some U or
+    B rank was laid out with another extent than the declared one (this happens exactly below a
+    B rank when the imposed extent differs from the tensor's: finding
+    `decode:B-rank-drops-imposed-shape`). -/
+theorem decode_encode_partial (d : Nat) (fs : List Fmt) (tsh : List Nat) (ish : Option (List Nat))
+    (t : List (Int × Tree Int Int d))
+    (hfs : fs.length = d + 1) (hwf : wfB (κ := Int) (ν := Int) (d + 1) t = true)
+    (hin : inShape (d + 1) tsh t = true) (hish : IshOK ish tsh)
+    (hlay : agreeNonC fs (effShape fs tsh ish) (declShape tsh ish) = true) :
+    decodesTo d fs (declShape tsh ish) (encode d fs tsh ish t).root (encode d fs tsh ish t).cs
+      (encode d fs tsh ish t).ps (content (κ := Int) (ν := Int) (0 : Int) (d + 1) t) = true := by
+  have h := decode_encode_eff d fs tsh ish t hfs hwf (inEff_of_inShape (d + 1) fs tsh ish t hin hish)
+  unfold decodesTo at h ⊢
+  rw [← decF_agree d fs _ _ hlay hfs]
+  exact h
+
+/-- without an imposed shape nothing is excluded: every descriptor, every tensor -/
+theorem decode_encode_noshape (d : Nat) (fs : List Fmt) (tsh : List Nat) (t : List (Int × Tree Int Int d))
+    (hfs : fs.length = d + 1) (htsh : tsh.length = d + 1) (hwf : wfB (κ := Int) (ν := Int) (d + 1) t = true)
+    (hin : inShape (d + 1) tsh t = true) :
+    decodesTo d fs tsh (encode d fs tsh none t).root (encode d fs tsh none t).cs
+      (encode d fs tsh none t).ps (content (κ := Int) (ν := Int) (0 : Int) (d + 1) t) = true := by
+  have h := decode_encode_eff d fs tsh none t hfs hwf (inEff_of_inShape (d + 1) fs tsh none t hin trivial)
+  rwa [effShape_none fs tsh (by rw [htsh, hfs])] at h
+
+/-- the 2-rank tensor {(0,1) ↦ 5, (1,1) ↦ 5} -/
+def witnessT : List (Int × Tree Int Int 1) :=
+  [(0, (show Tree Int Int 1 from [((1 : Int), (5 : Int))])), (1, (show Tree Int Int 1 from [((1 : Int), (5 : Int))]))]
+
+/-- … and the excluded class is real: descriptor (B, U), tensor shape [2,2], imposed shape [3,3] —
+    the arrays do not decode under the imposed shape. -/
+theorem decode_imposed_shape_counterexample :
+    decodesTo 1 [.B, .U] (declShape [2, 2] (some [3, 3])) (encode 1 [.B, .U] [2, 2] (some [3, 3]) witnessT).root
+      (encode 1 [.B, .U] [2, 2] (some [3, 3]) witnessT).cs (encode 1 [.B, .U] [2, 2] (some [3, 3]) witnessT).ps
+      (content (κ := Int) (ν := Int) (0 : Int) 2 witnessT) = false := by decide
+
+-- non-vacuity: the hypotheses are satisfiable by non-trivial values (all three formats, an empty
+-- sub-fiber, an explicit zero, an imposed shape larger than the tensor's)
+def sampleT : List (Int × Tree Int Int 2) :=
+  [(0, (show Tree Int Int 2 from [((1 : Int), (show Tree Int Int 1 from [((0 : Int), (7 : Int)), ((2 : Int), (0 : Int))])),
+                                 (2, (show Tree Int Int 1 from []))])),
+   (2, (show Tree Int Int 2 from [((0 : Int), (show Tree Int Int 1 from [((1 : Int), (-3 : Int))]))]))]
+
+example : decodesTo 2 [.C, .B, .U] (effShape [.C, .B, .U] [3, 3, 3] (some [4, 3, 5]))
+    (encode 2 [.C, .B, .U] [3, 3, 3] (some [4, 3, 5]) sampleT).root
+    (encode 2 [.C, .B, .U] [3, 3, 3] (some [4, 3, 5]) sampleT).cs
+    (encode 2 [.C, .B, .U] [3, 3, 3] (some [4, 3, 5]) sampleT).ps
+    (content (κ := Int) (ν := Int) (0 : Int) 3 sampleT) = true :=
+  decode_encode_eff 2 [.C, .B, .U] [3, 3, 3] (some [4, 3, 5]) sampleT (by decide) (by decide) (by decide)
+
+example :=
+  decode_encode_partial 2 [.U, .C, .B] [3, 3, 3] (some [4, 3, 5]) sampleT (by decide) (by decide) (by decide)
+    (by show shapeGe _ _ = true; decide) (by decide)
+
+example :=
+  decode_encode_noshape 2 [.B, .U, .C] [3, 3, 3] sampleT (by decide) (by decide) (by decide) (by decide)
+
+example : (content (κ := Int) (ν := Int) (0 : Int) 3 sampleT).length = 2 := by decide
+
+
+/-! ### every encoded fiber: scan, lookup, size -/
+
+/-- every fiber object of an encoding satisfies the encoder's invariant (`FibFacts`): its stored
+    coordinates are the format's rendering of the source fiber's element coordinates, which are
+    strictly increasing and inside the extent; occupancy, value and payload lists have the
+    lengths the format prescribes -/
+theorem encode_fibs_facts (d : Nat) (fs : List Fmt) (tsh : List Nat) (ish : Option (List Nat))
+    (t : List (Int × Tree Int Int d))
+    (hfs : fs.length = d + 1) (hwf : wfB (κ := Int) (ν := Int) (d + 1) t = true)
+    (hin : inEff (d + 1) fs tsh ish t = true) :
+    ∀ F ∈ (encode d fs tsh ish t).fibs.flatten, FibFacts F :=
+  encF_fibs_facts d fs tsh ish 0 (List.replicate (d + 1) (0, 0)) t hfs hwf hin
+
+/-- Scanning an encoded fiber through its own handle interface (`setupSlice(0)`, `nextInSlice`
+    until None, `handleToCoord`, `handleToPayload`) yields exactly the fiber's elements in order:
+    the k-th coordinate of the source fiber's laid-out elements (all positions for U, the
+    non-empty elements for C and B) with payload handle k, i.e. — resolved — its k-th leaf value
+    resp. its k-th child fiber.  PARTIAL: `hcu` excludes coordinate-list fibers above an
+    uncompressed rank (finding `scan:C-over-U-payload-handle`). -/
+theorem scan_eq_elems_partial (d : Nat) (fs : List Fmt) (tsh : List Nat) (ish : Option (List Nat))
+    (t : List (Int × Tree Int Int d))
+    (hfs : fs.length = d + 1) (hwf : wfB (κ := Int) (ν := Int) (d + 1) t = true)
+    (hin : inEff (d + 1) fs tsh ish t = true)
+    (F : EFib) (hF : F ∈ (encode d fs tsh ish t).fibs.flatten)
+    (hcu : ¬ (F.fmt = .C ∧ F.next = some .U)) :
+    F.layoutCoords = F.ecoords ∧ F.scan = F.scanSpec ∧ F.scanElems = F.elemsSpec := by
+  have h := encode_fibs_facts d fs tsh ish t hfs hwf hin F hF
+  exact ⟨layoutCoords_facts F h, scan_facts F h hcu, scanElems_facts F h hcu⟩
+
+/-- what the excluded class does: a coordinate-list fiber above an uncompressed rank delivers the
+    right coordinates but the same payload (`occupancy_so_far`, the next-rank index of its first
+    child) for every element -/
+theorem scan_C_over_U (d : Nat) (fs : List Fmt) (tsh : List Nat) (ish : Option (List Nat))
+    (t : List (Int × Tree Int Int d))
+    (hfs : fs.length = d + 1) (hwf : wfB (κ := Int) (ν := Int) (d + 1) t = true)
+    (hin : inEff (d + 1) fs tsh ish t = true)
+    (F : EFib) (hF : F ∈ (encode d fs tsh ish t).fibs.flatten) (hC : F.fmt = .C) (hU : F.next = some .U) :
+    F.scan = F.ecoords.map (fun c => (some c, some F.osf)) :=
+  scan_CU_facts F (encode_fibs_facts d fs tsh ish t hfs hwf hin F hF) hC hU
+
+/-- … so with two elements the scan is not the fiber's element list: descriptor (C, U) on the
+    witness tensor, the top fiber designates next-rank fiber 0 for both coordinates -/
+theorem scan_C_over_U_counterexample :
+    ∃ F ∈ (encode 1 [.C, .U] [2, 2] none witnessT).fibs.flatten, F.scanElems ≠ F.elemsSpec ∧
+      F.scanElems = [(some 0, some 0), (some 1, some 0)] ∧ F.elemsSpec = [(some 0, some 0), (some 1, some 1)] := by
+  refine ⟨((encode 1 [.C, .U] [2, 2] none witnessT).fibs.flatten).headD default, by decide, by decide, by decide, by decide⟩
+
+/-- Coordinate lookup in an encoded coordinate-list fiber (`coordToHandle`: two short paths and
+    a ceil-mid binary search) returns the handle of the first stored coordinate not below the
+    query, None when there is none. -/
+theorem coordToHandle_lowerBound (d : Nat) (fs : List Fmt) (tsh : List Nat) (ish : Option (List Nat))
+    (t : List (Int × Tree Int Int d))
+    (hfs : fs.length = d + 1) (hwf : wfB (κ := Int) (ν := Int) (d + 1) t = true)
+    (hin : inEff (d + 1) fs tsh ish t = true)
+    (F : EFib) (hF : F ∈ (encode d fs tsh ish t).fibs.flatten) (hC : F.fmt = .C) (q : Int) :
+    F.coordToHandle q = lowerHandle F.ecoords q :=
+  coordToHandle_C F (encode_fibs_facts d fs tsh ish t hfs hwf hin F hF) hC q
+
+/-- the search itself, for any strictly increasing coordinate list -/
+theorem coordToHandle_search (cs : List Int) (hinc : cs.Pairwise (· < ·)) (q : Int) :
+    c2hC cs q = lowerHandle cs q := c2hC_lowerHandle cs hinc q
+
+/-- `getSize` of every encoded fiber: it raises exactly in the class `sizeAsserts` (a fiber
+    without elements that is U, or C above an explicit rank) and otherwise reports the number of
+    words the layout stores -/
+theorem getSize_eq (d : Nat) (fs : List Fmt) (tsh : List Nat) (ish : Option (List Nat))
+    (t : List (Int × Tree Int Int d))
+    (hfs : fs.length = d + 1) (hwf : wfB (κ := Int) (ν := Int) (d + 1) t = true)
+    (hin : inEff (d + 1) fs tsh ish t = true)
+    (F : EFib) (hF : F ∈ (encode d fs tsh ish t).fibs.flatten) :
+    F.getSize = if F.sizeAsserts then none else some F.words :=
+  getSize_facts F (encode_fibs_facts d fs tsh ish t hfs hwf hin F hF)
+
+/-- PARTIAL form of the size clause: outside the asserting class the reported size is the number
+    of words of the layout (finding `size:assert-on-empty-fiber` is the excluded class). -/
+theorem size_eq_words_partial (d : Nat) (fs : List Fmt) (tsh : List Nat) (ish : Option (List Nat))
+    (t : List (Int × Tree Int Int d))
+    (hfs : fs.length = d + 1) (hwf : wfB (κ := Int) (ν := Int) (d + 1) t = true)
+    (hin : inEff (d + 1) fs tsh ish t = true)
+    (F : EFib) (hF : F ∈ (encode d fs tsh ish t).fibs.flatten) (hna : F.sizeAsserts = false) :
+    F.getSize = some F.words := by
+  rw [getSize_eq d fs tsh ish t hfs hwf hin F hF, hna]; rfl
+
+/-- the excluded class is real: the empty 1-rank tensor in format U -/
+theorem size_assert_counterexample :
+    ∃ F ∈ (encode 0 [.U] [0] none ([] : List (Int × Tree Int Int 0))).fibs.flatten,
+      F.getSize = none ∧ F.words = 0 := by
+  refine ⟨((encode 0 [.U] [0] none ([] : List (Int × Tree Int Int 0))).fibs.flatten).headD default,
+    by decide, by decide, by decide⟩
+
+-- non-vacuity of the per-fiber theorems: sampleT under (C, B, U) has 1 + 2 + 3 fibers of all three formats
+example : ((encode 2 [.C, .B, .U] [3, 3, 3] (some [4, 3, 5]) sampleT).fibs.flatten.map (·.fmt)) =
+    [.C, .B, .B, .U, .U] := by decide
+
+example := scan_eq_elems_partial 2 [.C, .B, .U] [3, 3, 3] (some [4, 3, 5]) sampleT (by decide) (by decide) (by decide)
+  (((encode 2 [.C, .B, .U] [3, 3, 3] (some [4, 3, 5]) sampleT).fibs.flatten).headD default) (by decide) (by decide)
+
+example : (((encode 2 [.C, .B, .U] [3, 3, 3] (some [4, 3, 5]) sampleT).fibs.flatten).headD default).scanElems
+    = [(some 0, some 0), (some 2, some 1)] := by decide
+
+example := coordToHandle_lowerBound 2 [.C, .B, .U] [3, 3, 3] none sampleT (by decide) (by decide) (by decide)
+  (((encode 2 [.C, .B, .U] [3, 3, 3] none sampleT).fibs.flatten).headD default) (by decide) (by decide) 1
+
+example := coordToHandle_search [1, 4, 6, 9, 12] (by decide) 7
+example : lowerHandle [1, 4, 6, 9, 12] 7 = some 3 := by decide
+
+example := size_eq_words_partial 2 [.C, .B, .U] [3, 3, 3] none sampleT (by decide) (by decide) (by decide)
+  (((encode 2 [.C, .B, .U] [3, 3, 3] none sampleT).fibs.flatten).headD default) (by decide) (by decide)
+
+example := scan_C_over_U 1 [.C, .U] [2, 2] none witnessT (by decide) (by decide) (by decide)
+  (((encode 1 [.C, .U] [2, 2] none witnessT).fibs.flatten).headD default) (by decide) (by decide) (by decide)
+
+example := getSize_eq 2 [.C, .B, .U] [3, 3, 3] none sampleT (by decide) (by decide) (by decide)
+  (((encode 2 [.C, .B, .U] [3, 3, 3] none sampleT).fibs.flatten).headD default) (by decide)
+
+example : (((encode 2 [.C, .B, .U] [3, 3, 3] none sampleT).fibs.flatten).map (·.words)) = [6, 1, 1, 3, 3] := by decide
+
+end Codec
+end Ft
